@@ -48,6 +48,9 @@ def replay_c16(case):
         if len(co_) >= 2 and len(co_[0]) >= 2:
             co_[0][1] = [0, 0]
             co_[-1][0] = [0, 0]
+            for j_ in range(len(co_[0])):          # every column keeps a non-zero entry (the drawn matrix may have had zeros)
+                if all(row_[j_][0] == 0 for row_ in co_):
+                    co_[0 if j_ == 0 else -1][j_] = cg.coeff(rng)
     if case["geom"] == "coincident" and len(set(case["types"])) == 2 and case["id"] % 2 == 0:
         # one centre, a Cartesian shell two units of l above a pure one: Cartesian d, f, g hold s, p, (s, d) parts, so these
         # one-centre blocks do not vanish although the angular momenta differ
